@@ -10,7 +10,7 @@ from __future__ import annotations
 
 import math
 from collections import deque
-from datetime import timedelta
+from datetime import timedelta, timezone
 from typing import Any
 
 from .. import resamp
@@ -35,7 +35,7 @@ RULE = ("seeded (period, max_age in {1,1.5,3,10}, initial/max buffer lengths {1,
 REQUIRED_BUCKETS = ["tick-nonempty", "tick-empty(None)", "sample-exactly-T", "sample-exactly-T-minus-age",
                     "future-sample-excluded", "old-sample-excluded", "none-or-nan-input", "zero-valued-input", "input-period-estimated",
                     "buffer-resized", "buffer-evicted", "upsampling", "downsampling", "silence>max-age",
-                    "default-resampling-function", "upsampling-buffer-size-checked", "infinite-valued-input", "samples-stamped-in-a-non-utc-zone", "equal-timestamps", "series-share-a-name", "function-result-NaN"]
+                    "default-resampling-function", "upsampling-buffer-size-checked", "infinite-valued-input", "samples-stamped-in-a-non-utc-zone", "samples-stamped-in-a-daylight-saving-zone-across-a-clock-change", "equal-timestamps", "series-share-a-name", "function-result-NaN"]
 REQUIRED_COUNTERS = ["ticks_compared", "function_calls_observed", "input_period_estimates_checked"]
 ASSUMPTIONS = ["time-ordered inputs; virtual clock"]
 
@@ -69,7 +69,17 @@ def gen(rng: Any, tier: str, i: int) -> Any:
             vk = "ok" if r > 0.15 else rng.choice(odd)
             ev.append([d, tsk, vk])
         series.append({"add_at": 0.0, "events": ev, "ip": ip, "tz_min": rng.choice([0, 0, 0, 120, -300, 345])})
-    return {"period": period, "align": 0.0, "start_offset": rng.choice([0.0, 0.3, 0.999999, period / 2, 17.25]),
+    start_offset = rng.choice([0.0, 0.3, 0.999999, period / 2, 17.25])
+    if rng.random() < 0.15:
+        # the sources stamp their samples in a zone with daylight saving, and the run straddles a clock change
+        # (2024-03-31 / 2024-10-27 01:00 UTC in Berlin, 2024-11-03 06:00 UTC in New York)
+        zone, change = rng.choice([("Europe/Berlin", 90 * 86400 + 3600), ("Europe/Berlin", 300 * 86400 + 3600),
+                                   ("America/New_York", 307 * 86400 + 6 * 3600)])
+        for sr in series:
+            sr["tz_zone"] = zone
+            sr["tz_min"] = 0
+        start_offset = round(change - rng.uniform(0.25, 0.75) * ticks * period + start_offset, 6)
+    return {"period": period, "align": 0.0, "start_offset": start_offset,
             "max_age": age, "init_len": init, "max_len": maxlen, "ticks": ticks, "series": series, "lat": [],
             "drain_periods": 2, "fn": fn_kind,
             "same_names": ns > 1 and rng.random() < 0.4, "nan_every": rng.choice([0, 0, 0, 4, 7])}
@@ -96,6 +106,8 @@ def check(case: dict[str, Any], rec: Any) -> None:
             rec.bucket("zero-valued-input")
         if s.get("tz_min"):
             rec.bucket("samples-stamped-in-a-non-utc-zone")
+        if s.get("tz_zone"):
+            rec.bucket("samples-stamped-in-a-daylight-saving-zone-across-a-clock-change")
         if any(v == "inf" for _, _, v in s["events"]):
             rec.bucket("infinite-valued-input")
         if any(k == "same" for _, k, _ in s["events"][1:]):
@@ -209,7 +221,8 @@ def check(case: dict[str, Any], rec: Any) -> None:
             elif not (1 <= nc <= len(calls)) or e["value"] != float(nc):
                 rec.violation("emitted-value-is-not-the-function-result", {**w, "ncalls": nc})
                 continue
-            got = calls[nc - 1]["samples"]
+            # (compared in UTC: an inter-zone == is always False inside a repeated hour, PEP 495)
+            got = [(ts.astimezone(timezone.utc), v) for ts, v in calls[nc - 1]["samples"]]
             w["function_got_ids"] = [v for _, v in got]
             if not exp:
                 rec.violation("function-called-although-no-relevant-sample", w)
